@@ -567,6 +567,9 @@ def m0_core():
     m.method("Op", "get", "ref", [], OpaqueRef("Op"), ret_from=PassThrough("self"))
     m.method("Op", "get_opt", "ref", [], OpaqueRef("Op", optional=True), ret_from=PassThrough("self"))
     m.method("Op", "get_mut", "mut", [("n", P("u8"))], P("u32"))
+    m.method("Op", "get_mut_ref", "mut", [], OpaqueRef("Op", mut=True), ret_from=PassThrough("self"))
+    m.method("Op", "get_mut_opt", "mut", [], OpaqueRef("Op", mut=True, optional=True), ret_from=PassThrough("self"))
+    m.method("Op", "pick_mut", None, [("a", OpaqueRef("Op", mut=True)), ("k", P("u8"))], OpaqueRef("Op", mut=True, optional=True), ret_from=PassThrough("a"))
     m.method("Op", "other", "ref", [("o", OpaqueRef("Op")), ("p", OpaqueRef("Op", optional=True)), ("q", OpaqueRef("Op", mut=True))], None)
     m.method("Op", "enums", None, [("a", EnumT("En")), ("b", EnumT("Small")), ("c", EnumT("Solo"))], EnumT("En"))
     m.method("Op", "ret_small", None, [], EnumT("Small"))
